@@ -74,3 +74,9 @@ package postprocessor
 //@ ensures [negative-size-is-rejected] imp(a.Size != nil && a.Size.Val < 0, result != nil)
 //@ ensures [unknown-operator-is-rejected] imp(a.Size != nil && a.Size.Op != "eq" && a.Size.Op != "=" && a.Size.Op != "lt" && a.Size.Op != "<" && a.Size.Op != "gt" && a.Size.Op != ">", result != nil)
 //@ ensures [well-formed-size-assertion-is-accepted] imp(a.Size != nil && a.Size.Val >= 0 && (a.Size.Op == "eq" || a.Size.Op == "=" || a.Size.Op == "lt" || a.Size.Op == "<" || a.Size.Op == "gt" || a.Size.Op == ">"), result == nil)
+
+//@ func (e *errAssert) Error
+//@ props C15 C19
+//@ nilsafe
+//@ requires e != nil
+//@ modifies nothing
